@@ -1,2 +1,4 @@
 pub mod engine;
+pub mod gen;
 pub mod props;
+pub mod wacutil;
